@@ -515,6 +515,8 @@ func C10(c *hx.Ctx) {
 	if ptraceBroken {
 		return
 	}
+	// a stale temporary file (long regular file / symbolic link to an unrelated file) where gxz creates its own
+	gxzStaleTemp(c, bin)
 	// TLC validates the recorded system-call traces
 	r := c.TLC(tlc.Opts{Module: "TraceGxzFs", Cfg: "TraceGxzFs.cfg", Files: map[string][]byte{"trace.ndjson": tr.Bytes()}, Timeout: 10 * time.Minute, Xss: "256m"})
 	if r.OK {
